@@ -25,6 +25,14 @@ def shapes(rnd, quick, k):
     out.append(("lastcell", {"DF394": "sparse", "DF395": "sparse", "DF396": "last"}))
     out.append(("dense", {"DF394": "random", "DF395": "random", "DF396": "dense"}))
     out.append(("random", {"DF394": "random", "DF395": "sparse", "DF396": "random"}))
+    # many satellites x several signals (realistic: 10..40 satellites, 2..4 signals)
+    sm = 0
+    for _ in range(rnd.randint(10, 40)):
+        sm |= 1 << rnd.randrange(64)
+    gm = 0
+    for _ in range(rnd.randint(2, 4)):
+        gm |= 1 << rnd.randrange(32)
+    out.append(("manysat", {"DF394": sm, "DF395": gm, "DF396": "dense"}))
     if not quick:
         # all 32 signals for 2 satellites (64 cells), and 64 satellites x 1 signal
         out.append(("allsig", {"DF394": (1 << 63) | (1 << 20), "DF395": (1 << 32) - 1, "DF396": "full"}))
